@@ -63,7 +63,13 @@ def parse_subst(s):
     if len(parts) != 2:
         raise ExtractError('bad substitution %r' % s)
     opts = dict(kv.split('=') for kv in rest.split()) if rest else {}
-    return parts[0], parts[1].replace('\\&', '&'), opts
+    rx = parts[0]
+    # a leading `^\s*` must not swallow the preceding newline (rules are line-count preserving)
+    if rx.startswith('^\\s*'):
+        rx = '^[ \\t]*' + rx[4:]
+    elif rx.startswith('^(\\s*)'):
+        rx = '^([ \\t]*)' + rx[6:]
+    return rx, parts[1].replace('\\&', '&'), opts
 
 
 def parse_regex(s):
